@@ -389,10 +389,39 @@ fn main() {
     let pools: &[usize] = if a.tier == "thorough" { &POOLS_THOROUGH } else { &POOLS_QUICK };
     let mut by_pool = [0usize; 17];
     let mut cur: Option<Input> = None;
+    // An i64 input whose total is >= 2^46 is run twice, in two consecutive groups of pools:
+    // first tagged with the known-finding class (computed from the input alone) and judged by the
+    // LITERAL clause of the property, then as an untagged twin judged by the proved clause, so
+    // that a failure that is not the known finding is never suppressed.
+    let mut pending_twin: Option<Input> = None;
+    let mut twin = false;
+    let mut n_twins = 0usize;
     for idx in 0..a.cases {
         let mut r = rng.fork();
         if idx % pools.len() == 0 || cur.is_none() {
-            cur = Some(gen_input(&mut r, &a.tier));
+            if let Some(t) = pending_twin.take() {
+                cur = Some(t);
+                twin = true;
+            } else {
+                twin = false;
+                let inp = if idx == 0 {
+                    // the witness of the known finding, in every run: 1 x 3 grid, total ~2^61.4
+                    Input {
+                        fam: "i64_band_edge_witness".to_string(),
+                        dims: vec![1, 3],
+                        w: Weights::I64(vec![1480445131096389888, 1, 1510353113542781918]),
+                        k: 1,
+                    }
+                } else {
+                    gen_input(&mut r, &a.tier)
+                };
+                if let Weights::I64(ws) = &inp.w {
+                    if ws.iter().map(|x| *x as i128).sum::<i128>() >= (1i128 << 46) {
+                        pending_twin = Some(inp.clone());
+                    }
+                }
+                cur = Some(inp);
+            }
         }
         let inp = cur.clone().unwrap();
         let threads = pools[idx % pools.len()];
@@ -423,8 +452,11 @@ fn main() {
                 let tot: i128 = ws.iter().map(|x| *x as i128).sum();
                 // class predicate (from the input alone) of the finding "the literal 1% + 1 unit
                 // can fail by float rounding of the thresholds": i64 weights, total >= 2^46
-                let tag = if tot >= (1i128 << 46) {
+                let tag = if tot >= (1i128 << 46) && !twin {
                     "\"weight_type\":\"i64\",\"kf\":\"gridrcb-i64-total-ge-2p46-band-rounding\""
+                } else if twin {
+                    n_twins += 1;
+                    "\"weight_type\":\"i64\",\"untagged_twin_judged_by_proved_clause\":true"
                 } else {
                     "\"weight_type\":\"i64\""
                 };
@@ -457,7 +489,7 @@ fn main() {
             inp.k,
             threads,
             wty_coq,
-            coq_bool(exact),
+            if !exact { 1 } else if twin { 2 } else { 0 },
             coq_impl
         );
         let zj: Vec<String> = zs.iter().map(|x| x.to_string()).collect();
@@ -470,18 +502,18 @@ fn main() {
             threads,
             json_impl
         );
-        let key = format!("{:?}|{:?}|{}|{}|{}", inp.dims, zs, wty_coq, inp.k, threads);
+        let key = format!("{:?}|{:?}|{}|{}|{}|{}", inp.dims, zs, wty_coq, inp.k, threads, twin);
         let n: usize = inp.dims.iter().product();
         let nontrivial = n >= 4 && inp.k >= 1 && zs.iter().any(|w| *w != 0);
-        let fam = format!("{}d_{}", inp.dims.len(), inp.fam);
+        let fam = format!("{}d_{}{}", inp.dims.len(), inp.fam, if twin { "_twin" } else { "" });
         w.push(coq, json, &key, nontrivial, &fam);
         if hangs > 3 {
             break;
         }
     }
     let mut extra = format!(
-        "\"hangs\":{},\"panics\":{},\"cases_i64\":{},\"cases_f64_exact_dyadic\":{},\"cases_f64_arbitrary_checker_only\":{}",
-        hangs, panics, n_i64, n_f64_exact, n_f64_arb
+        "\"hangs\":{},\"panics\":{},\"cases_i64\":{},\"cases_i64_untagged_twins\":{},\"cases_f64_exact_dyadic\":{},\"cases_f64_arbitrary_checker_only\":{}",
+        hangs, panics, n_i64, n_twins, n_f64_exact, n_f64_arb
     );
     for (t, n) in by_pool.iter().enumerate() {
         if *n > 0 {
